@@ -371,7 +371,14 @@ func HasBIOSPolicy(txtAPI hwapi.LowLevelHardwareInterfaces, p *PreSet) (bool, er
 
 func getFITDataSize(hdr fit.EntryHeaders, txtAPI hwapi.LowLevelHardwareInterfaces) (uint64, error) {
 	firmware := newTXTAPIFirmwareReadSeeker(txtAPI)
-	return fit.EntryDataSegmentSize(fit.NewEntry(&hdr, firmware), firmware)
+	size, err := fit.EntryDataSegmentSize(fit.NewEntry(&hdr, firmware), firmware)
+	if err != nil {
+		return 0, err
+	}
+	if hdr.Address.Pointer()+size < hdr.Address.Pointer() {
+		return 0, fmt.Errorf("data segment of the FIT entry at %#x with size %#x wraps around the address space", hdr.Address.Pointer(), size)
+	}
+	return size, nil
 }
 
 // IBBCoversResetVector checks if BIOS Startup Module Entry covers Reset Vector
